@@ -201,7 +201,7 @@ func runHistory(rt *rapid.T, kind string, fixed bool) {
 			if properPrefixPair(mptkit.SortedKeys(m.model), p) {
 				tr.prefixPair = true
 			}
-			root, err := m.mpt.Insert(util.Path(p), mptkit.Val(v))
+			root, err := mptkit.InsertReused(m.mpt, p, v)
 			if err != nil {
 				m.failf("Insert(%q): %v", p, err)
 			}
